@@ -53,6 +53,15 @@ def instances():
     return out
 
 
+def _pe_image(spec):
+    if isinstance(spec, int):
+        return pegen.valid_pe(spec)
+    if spec.startswith("big:"):
+        _, lf, ns = spec.split(":")
+        return pegen.valid_pe_big(int(lf), int(ns))
+    return pegen.valid_pe_variant(spec)
+
+
 def describe(tier):
     return {
         "rule": (
@@ -60,7 +69,7 @@ def describe(tier):
             "and Windows paths, .exe/.dll names, CreateObject calls with nested parentheses) x EVERY offset 0..12 x neutral delimiters {space, tab, LF} on both "
             f"sides x {len(WORDS_PRE)}x{len(WORDS_SUF)} neutral prefix/suffix words; every documented false-positive trigger {[t.decode() for t in TRIGGERS]} in prefix AND in suffix "
             "position (a trigger may suppress only when it precedes); the instance surrounded by copies of itself in other letter cases (upper, lower, capitalised labels, swapped, lower first label + capitalised rest, upper last label); additionally ALL IPv4 addresses with octets from "
-            f"{OCT} (last octet without 0/255), EVERY entry of TOP_LEVEL_DOMAINS x 2 label shapes, CreateObject with unbalanced tails, and valid PE images with 1-3 sections, with a trailing raw-data-less section, and with raw data stored in reverse table order, at 4 offsets. "
+            f"{OCT} (last octet without 0/255), EVERY entry of TOP_LEVEL_DOMAINS x 2 label shapes, CreateObject with unbalanced tails, and valid PE images with 1-3 sections, with a trailing raw-data-less section, with raw data stored in reverse table order, with DOS stubs of 128 B .. 8 kB and with 96 / 200 sections, at 4 offsets. "
             "Each input is scanned with the shipped decoders; oracle: a node of the documented type with the canonical value and exactly the instance's "
             "absolute span (sum of starts along undecoded contexts) exists; differential: across all embeddings of one instance the node's "
             "(type, value, label, length, sub-structure) is identical. states = distinct inputs, transitions = embeddings compared per instance, "
@@ -202,8 +211,8 @@ def run_unit(unit, rec):
                           {"kind": "inst", "data": data, "span": [len(pre), len(pre) + len(c)], "types": ["vba.function.createobject"], "value": c})
         rec.sample({"family": "createobject", "last": data})
     elif kind == "pe":
-        for nsec in (1, 2, 3, "bss", "reversed"):
-            img = pegen.valid_pe(nsec) if isinstance(nsec, int) else pegen.valid_pe_variant(nsec)
+        for nsec in (1, 2, 3, "bss", "reversed", "big:128:2", "big:3840:2", "big:4096:2", "big:8192:1", "big:64:96", "big:64:200"):
+            img = _pe_image(nsec)
             for pre in (b"", b"x", b"junk \x00\x01 ", b"MZ fake "):
                 for suf in (b"", b" tail", b"\x00" * 7):
                     data = pre + img + suf
@@ -217,6 +226,6 @@ def replay(w, rec):
         a, b = w["span"]
         check(rec, w["data"], a, b, tuple(w["types"]), w["value"], w, sig_extra="")
     elif w.get("kind") == "pe":
-        img = pegen.valid_pe(w["nsec"]) if isinstance(w["nsec"], int) else pegen.valid_pe_variant(w["nsec"])
+        img = _pe_image(w["nsec"])
         data = w["pre"] + img + w["suf"]
         check(rec, data, len(w["pre"]), len(w["pre"]) + len(img), ("pe_file",), img, w)
